@@ -501,8 +501,14 @@ pub fn check_entry_race(c: &EntryRace) -> CheckResult {
     use std::sync::atomic::AtomicUsize;
     fn rendezvous(gate: &AtomicUsize, parties: usize) {
         gate.fetch_add(1, Ordering::SeqCst);
+        let mut spins = 0u32;
         while gate.load(Ordering::SeqCst) < parties {
             std::hint::spin_loop();
+            spins += 1;
+            // on a machine with fewer cores than spinning threads, let the others run
+            if spins > 20_000 {
+                std::thread::yield_now();
+            }
         }
     }
     let limit = watchdog();
